@@ -274,6 +274,8 @@ func (vc *FuncVC) applyContract(st *State, reach Term, ins *ssa.Call, callee *ss
 	}
 	if fc.Trusted {
 		vc.trustedUsed[name] = true
+	} else {
+		vc.contractedUsed[name] = true
 	}
 	// bind parameters
 	vars := map[string]SVal{}
@@ -522,6 +524,7 @@ func (vc *FuncVC) importDelegate(st, pre *State, reach Term, fc *FuncContract, e
 	if dfc == nil || dfn == nil {
 		panic("import: unknown delegate " + fc.Delegate)
 	}
+	vc.contractedUsed[fc.Delegate] = true
 	ev := vars["e"]
 	oldErr := vc.fieldOf(pre, ev.T, ev.Ty.Elem, "err").T
 	oldFlags := vc.fieldOf(pre, ev.T, ev.Ty.Elem, "Flags").T
@@ -679,13 +682,13 @@ func (vc *FuncVC) execReturn(st *State, reach Term, ins *ssa.Return) {
 	}
 	for _, h := range vc.fc.PostHints {
 		call, ok := h.E.(*ECall)
-		if !ok || vc.W.spec.lemma(call.Fn) == nil {
+		if !ok || vc.useLemma(call.Fn) == nil {
 			panic("posthint must be a lemma application: " + h.Src)
 		}
 		if vc.mentionsUnallocatedLocal(h.E, vars) {
 			continue
 		}
-		vc.assume(Implies(reach, instantiateLemma(env, vc.W.spec.lemma(call.Fn), call.Args)))
+		vc.assume(Implies(reach, instantiateLemma(env, vc.useLemma(call.Fn), call.Args)))
 	}
 	for j, en := range vc.fc.Ensures {
 		if vc.mentionsUnallocatedLocal(en.E, vars) {
